@@ -4,7 +4,7 @@
    compared with what the implementation produced.  Extracted separately from Check/Run.v so that the specification
    checker keeps working when the translated model does not compile. *)
 From Coq Require Import ZArith List Bool Arith.
-From SpadeV Require Import Num.Decode Geom.Pred Obs.State Obs.Spec Vmap.Model Dcel.Raw Gen.DcelOps Tri.Legalize Check.Codes Check.Run.
+From SpadeV Require Import Num.Decode Num.Decode2 Geom.Pred Obs.State Obs.Spec Vmap.Model Dcel.Raw Gen.DcelOps Tri.Legalize Tri.Insert Tri.Locate Check.Codes Check.Run.
 Import ListNotations.
 
 Definition dcel_eqb (a b : dcel) : bool :=
@@ -46,18 +46,102 @@ Definition check_prim (p n : obs) (args res : list Z) : list (tag * bool) :=
   | _ => []
   end.
 
+(* ---- whole insertions into two-dimensional states: existential correspondence over the admissible locations ---- *)
+Definition insert_candidates (p : obs) (pts : list pnt) (q : pnt) : list iloc :=
+  match find (fun v => pnt_eqb (pos pts v) q) (seq 0 (nV p)) with
+  | Some v => [IOnVertex v]
+  | None =>
+    let on_edges := filter (fun e => strictly_between (eorg p pts e) (edst p pts e) q) (seq 0 (nH p)) in
+    match on_edges with
+    | _ :: _ => map IOnEdge on_edges
+    | [] =>
+      let faces := filter (fun f => let '(a, b, c) := face_tri p pts f in
+                                    (0 <? orient a b q)%Z && (0 <? orient b c q)%Z && (0 <? orient c a q)%Z) (seq 1 (nF p - 1)) in
+      match faces with
+      | _ :: _ => map IOnFace faces
+      | [] => map IOutside (filter (fun e => (face p e =? 0) && (0 <? orient (eorg p pts e) (edst p pts e) q)%Z) (seq 0 (nH p)))
+      end
+    end
+  end.
+
+Definition check_insert_model (p n : obs) (x y d : Z) (res : list Z) : list (tag * bool) :=
+  match res with
+  | [r0; _] =>
+    if negb (r0 =? K_ok)%Z || (nF p <=? 1) then [] else
+    match decode_points (coord_bits p ++ [x; y]) with
+    | Some allp =>
+        let pts := firstn (nV p) allp in
+        match skipn (nV p) allp with
+        | [q] =>
+            let dd := dcel_of_obs p in
+            let dn := dcel_of_obs n in
+            let fuel := nH p * nH p + 200 in
+            [(T_corr, existsb (fun loc => match insert_2d allp fuel dd loc (mkvd x y d) with
+                                           | Some d' => dcel_eqb d' dn
+                                           | None => false end) (insert_candidates p pts q))]
+        | _ => [(T_parse, false)]
+        end
+    | None => []
+    end
+  | _ => []
+  end.
+
+(* ---- point location in two-dimensional states ---- *)
+Definition lres_matches (r : lres) (res : list Z) : bool :=
+  match r, res with
+  | ROnVertex v, [k; i] => (k =? K_vertex)%Z && (Z.to_nat i =? v)
+  | ROnEdge e, [k; i] => (k =? K_edge)%Z && (Z.to_nat i =? e)
+  | ROnFace f, [k; i] => (k =? K_face)%Z && (Z.to_nat i =? f)
+  | ROutside e, [k; i] => (k =? K_outside)%Z && (Z.to_nat i =? e)
+  | _, _ => false
+  end.
+(* small integer coordinates: the implementation's floating-point squared distances are exact *)
+Definition exact_class (pts : list pnt) : bool :=
+  forallb (fun p => (Z.abs (fst p) <? 1048576)%Z && (Z.abs (snd p) <? 1048576)%Z) pts.
+Definition check_locate_model (p : obs) (x y : Z) (hint : option Z) (res : list Z) : list (tag * bool) :=
+  if nF p <=? 1 then [] else
+  match decode_points_e (coord_bits p ++ [x; y]) with
+  | Some (allp, em) =>
+      let pts := firstn (nV p) allp in
+      match skipn (nV p) allp with
+      | [q] =>
+          let dd := dcel_of_obs p in
+          let exact := exact_class allp && (0 <=? em)%Z in
+          match hint, exact with
+          | Some h, true => [(T_corr, lres_matches (locate_with_hint pts dd q (Z.to_nat h)) res)]
+          | _, _ => [(T_corr, existsb (fun c => lres_matches (locate_from_closest pts dd q c) res) (seq 0 (nV p)))]
+          end
+      | _ => []
+      end
+  | None => []
+  end.
+
 Fixpoint run_model_steps (p : obs) (k : nat) (l : list step) : list verdict :=
   match l with
   | [] => []
   | st :: t =>
     match s_obs st with
-    | None => run_model_steps p (S k) t
+    | None =>
+        (if negb (existsb (Z.eqb K_skip) (s_res st) || existsb (Z.eqb K_panic) (s_res st) || existsb (Z.eqb K_hang) (s_res st)) then
+           (if (s_op st =? OP_loch)%Z then
+              match s_args st with [x; y; h] => map (fun v => (k, fst v, snd v)) (check_locate_model p x y (Some h) (s_res st)) | _ => [] end
+            else if (s_op st =? OP_loc)%Z then
+              match s_args st with [x; y] => map (fun v => (k, fst v, snd v)) (check_locate_model p x y None (s_res st)) | _ => [] end
+            else [])
+         else [])
+        ++ run_model_steps p (S k) t
     | Some raw =>
       match parse_obs raw with
       | None => [(k, T_parse, false)]
       | Some n =>
         (if (s_op st =? OP_prim)%Z && negb (existsb (Z.eqb K_skip) (s_res st) || existsb (Z.eqb K_panic) (s_res st) || existsb (Z.eqb K_hang) (s_res st))
-         then map (fun v => (k, fst v, snd v)) (check_prim p n (s_args st) (s_res st)) else [])
+         then map (fun v => (k, fst v, snd v)) (check_prim p n (s_args st) (s_res st))
+         else if ((s_op st =? OP_ins)%Z || (s_op st =? OP_insh)%Z) && negb (existsb (Z.eqb K_skip) (s_res st) || existsb (Z.eqb K_panic) (s_res st) || existsb (Z.eqb K_hang) (s_res st))
+         then match s_args st with
+              | x :: y :: d :: _ => map (fun v => (k, fst v, snd v)) (check_insert_model p n x y d (s_res st))
+              | _ => []
+              end
+         else [])
         ++ run_model_steps n (S k) t
       end
     end
